@@ -354,9 +354,24 @@ func (s *Server) handlePostHalt(w http.ResponseWriter, r *http.Request) {
 		return
 	}
 
+	// Validate everything before the database is created: a refused request must not leave one behind.
+	if !validDatabaseName(name) {
+		Error(w, r, fmt.Errorf("invalid database name: %q", name), http.StatusBadRequest)
+		return
+	} else if lockID == 0 {
+		Error(w, r, fmt.Errorf("halt lock id required"), http.StatusBadRequest)
+		return
+	}
+
 	// Cannot issue remote halt lock from this node.
 	if id, _ := litefs.ParseNodeID(r.Header.Get(HeaderNodeID)); id == s.store.ID() {
 		Error(w, r, fmt.Errorf("cannot remotely halt self"), http.StatusBadRequest)
+		return
+	}
+
+	// Only the primary hands out halt locks.
+	if !s.store.IsPrimary() {
+		Error(w, r, litefs.ErrLeaseExpired, http.StatusServiceUnavailable)
 		return
 	}
 
@@ -379,6 +394,11 @@ func (s *Server) handlePostHalt(w http.ResponseWriter, r *http.Request) {
 		Error(w, r, err, http.StatusInternalServerError)
 		return
 	}
+}
+
+// validDatabaseName reports whether name can name a database: a single, non-empty path element.
+func validDatabaseName(name string) bool {
+	return name != "" && name != "." && name != ".." && !strings.ContainsAny(name, "/\\\x00")
 }
 
 func (s *Server) handleDeleteHalt(w http.ResponseWriter, r *http.Request) {
